@@ -23,7 +23,8 @@ with open(os.path.join(ROOT, "seeded", "README.md"), "w") as f:
     )
     n = len(rows)
     outright = sum(1 for _, m in rows if m.get("check_result", "").startswith("caught") and "after" not in m.get("check_result", "") and "first" not in m.get("check_result", ""))
-    f.write("%d changes; %d caught by the checks as they stood, the others after the strengthening named in the last column (each miss came from a generator narrower than the property's quantifier, never from a loosened oracle).\n\n" % (n, outright))
+    undetected = [name for name, m in rows if m.get("check_result", "").upper().startswith("NOT DETECTED")]
+    f.write("%d changes; %d caught by the checks as they stood, %d after the strengthening named in the last column (each of those misses came from a generator narrower than the property's quantifier, never from a loosened oracle), %d not detected%s.\n\n" % (n, outright, n - outright - len(undetected), len(undetected), (" (" + ", ".join(undetected) + ": see its row and DESIGN.md 5.6)") if undetected else ""))
     f.write("| change | property | what it needs to manifest | result | check outcome | strengthening |\n|---|---|---|---|---|---|\n")
     for name, m in rows:
         esc = lambda s: str(s).replace("|", "\\|").replace("\n", " ")
